@@ -328,10 +328,6 @@ func selectSetForRecursion(ctx context.Context, scope *ReferenceScope, view *Vie
 		return NewCombinedSetFieldLengthError(set.RHS, view.FieldLen())
 	}
 
-	if rview.RecordLen() < 1 {
-		return nil
-	}
-
 	switch set.Operator.Token {
 	case parser.UNION:
 		if err = view.Union(ctx, scope.Tx.Flags, rview, !set.All.IsEmpty()); err != nil {
@@ -345,6 +341,12 @@ func selectSetForRecursion(ctx context.Context, scope *ReferenceScope, view *Vie
 		if err = view.Intersect(ctx, scope.Tx.Flags, rview, !set.All.IsEmpty()); err != nil {
 			return err
 		}
+	}
+
+	// The recursion ends with the first empty result. That result is combined like the others: when it is
+	// the first one, the result of the base query has not been through the set operator yet.
+	if rview.RecordLen() < 1 {
+		return nil
 	}
 
 	if err = rview.Header.Update(tmpViewName, scope.RecursiveTable.Fields); err != nil {
